@@ -67,11 +67,19 @@ struct Conn {
 
     // send everything (the server may be slow to read: poll for writability with the timeout)
     bool send_all(std::string const &d) { return send_all(d.data(), d.size()); }
+    // While waiting for room in the send buffer anything the server already sent is taken in (into buf): a peer that pipelines
+    // requests must keep reading, otherwise it dead-locks against a server that is blocked writing an earlier reply.
     bool send_all(const char *p, size_t n) {
         while (n > 0) {
-            pollfd pf{fd, POLLOUT, 0};
+            pollfd pf{fd, (short)(POLLOUT | (eof ? 0 : POLLIN)), 0};
             int r = ::poll(&pf, 1, timeout_ms);
             if (r <= 0) { timed_out = (r == 0); return false; }
+            if (pf.revents & POLLIN) {
+                char tmp[65536]; ssize_t k = ::recv(fd, tmp, sizeof tmp, MSG_DONTWAIT);
+                if (k > 0) buf.append(tmp, (size_t)k); else if (k == 0) eof = true;
+                if (!(pf.revents & POLLOUT)) continue;
+            }
+            if (!(pf.revents & POLLOUT)) { if (pf.revents & (POLLERR | POLLHUP)) { err = true; return false; } continue; }
             ssize_t w = ::send(fd, p, n, MSG_NOSIGNAL | MSG_DONTWAIT);
             if (w < 0) { if (errno == EAGAIN || errno == EINTR) continue; err = true; return false; }
             p += w; n -= (size_t)w;
